@@ -13,7 +13,8 @@
                the dataset id of a persist stage is its 1-based position in the list
      draws   : VTup [seed; VList floats]: the first random() values of random.Random(seed)
      jobs    : VTup [depth; action; arg; sched]: run [action] on the dataset made of the first [depth] stages
-               action 0 = per-partition lists (runJob(unit_map)), 1 = collect, 2 = count, 3 = sum, 4 = coalesce(arg)
+               action 0 = per-partition lists (runJob(unit_map)), 1 = collect, 2 = count, 3 = sum, 4 = coalesce(arg),
+               5 = unpersist() of that dataset (no job runs; value None)
    result = VTup [VList (VTup [events; value]) ; cache_obj as VList (VTup [VTup [id; index]; data]); stamped idents] *)
 From Coq Require Import ZArith NArith String List Bool PrimFloat.
 Require Import PV.Base.Val PV.Model.Sched.
@@ -102,7 +103,7 @@ Definition dec_job (np : nat) (v : val) : option job :=
   match v with
   | VTup [VInt d; VInt a; VInt arg; VList s] =>
       match all_Z s with
-      | Some zs => if (0 <=? d) && (0 <=? a) && (a <=? 4)
+      | Some zs => if (0 <=? d) && (0 <=? a) && (a <=? 5)
                    then Some {| j_depth := Z.to_nat d; j_action := a; j_arg := arg;
                                 j_sched := map (fun z => if 0 <=? z then Z.to_nat z else np) zs |}
                    else None
@@ -146,7 +147,17 @@ Fixpoint run_jobs (js : list job) (driver : cache) (stamped : list key) (acc : l
   | j :: js' =>
       let r := build stages (j_depth j) 1 Src in
       let tf := tfun_of_action (j_action j) in
-      if backend_code =? 2 then
+      if j_action j =? 5 then
+        (* PersistedRDD.unpersist(): every (id, partition) of that dataset leaves the driver's cache; on any other
+           dataset RDD.unpersist() does nothing *)
+        (* TimedCacheManager.delete forgets the time stamps of the deleted idents as well *)
+        run_jobs js'
+                 (match r with Persist id _ => c_unpersist (List.length parts) id driver | _ => driver end)
+                 (match r with
+                  | Persist id _ => c_keys (c_unpersist (List.length parts) id (map (fun k => (k, [])) stamped))
+                  | _ => stamped end)
+                 (VTup [enc_events []; VNone] :: acc)
+      else if backend_code =? 2 then
         let '(rs, d', _) := run_local (draw_of tbl) today r tf parts driver shared0 in
         match all_some rs with
         | Some rs' =>
